@@ -55,6 +55,22 @@ impl Out {
             self.dups += 1;
             return;
         }
+        // fn_graph built with its default features (harness without `int`): scenario ids carry the mark "P~",
+        // so that a violation is replayed on the same build
+        #[cfg(not(feature = "int"))]
+        let (scn, trace) = {
+            let mut scn = scn.clone();
+            let mut trace = trace.to_vec();
+            if !scn.id.starts_with("P~") {
+                scn.id = format!("P~{}", scn.id);
+            }
+            if let Some(first) = trace.first_mut() {
+                first["scn"] = serde_json::Value::String(scn.id.clone());
+            }
+            (scn, trace)
+        };
+        #[cfg(not(feature = "int"))]
+        let (scn, trace) = (&scn, &trace[..]);
         for v in trace {
             writeln!(self.traces, "{}", v).unwrap();
         }
